@@ -6,7 +6,7 @@
     them in job-major order; [op_id I j p] (Instance.v) is the definitional
     dense id: the sum of the lengths of the earlier jobs plus [p]. *)
 From JSL Require Import Base Instance Dstate Filters World Views.
-From Coq Require Import Lia.
+From Coq Require Import Lia Permutation.
 
 (** ** Numbering *)
 (** "Dense, job-major": listing the operations job by job, position by
@@ -24,6 +24,12 @@ Definition flexible (I : instance) : Prop :=
 (** every operation has exactly one eligible machine *)
 Definition single_machine (I : instance) : Prop :=
   forall j p o, get_op I j p = Some o -> exists m, machines o = [m].
+
+(** boolean twins (proved equivalent in proofs/ViewsProofs.v) *)
+Definition has_machines_b (I : instance) : bool :=
+  forallb (forallb (fun o => match machines o with [] => false | _ => true end)) I.
+Definition single_machine_b (I : instance) : bool :=
+  forallb (forallb (fun o => (length (machines o) =? 1)%nat)) I.
 
 (** ** Greatest element *)
 Definition is_max (l : list Z) (x : Z) : Prop := In x l /\ forall y, In y l -> y <= x.
@@ -61,3 +67,25 @@ Definition print_taillard (c : nat) (I : instance) : list tline :=
   repeat TComment c ++ TRow [Z.of_nat (num_jobs I); Z.of_nat (num_machines I)] :: map (fun job => TRow (job_row job)) I.
 Definition drop_comments (ls : list tline) : list tline :=
   filter (fun l => match l with TComment => false | TRow _ => true end) ls.
+
+(** ** Per-machine job sequences and the order they impose.
+    [L] is a total order (a list) of all operation keys. It LINEARISES the
+    per-machine job sequences [P] when it respects the job order (every
+    earlier position of the same job comes first) and its restriction to the
+    operations of machine [m], read as job ids, is [P[m]] — i.e. [L] is a
+    linear extension of "job order ∪ machine order of P". Such an [L] exists
+    iff that relation has no cycle. *)
+Definition on_machine_k (I : instance) (m : nat) (k : nat * nat) : bool := mem_nat m (kmachines I k).
+Definition project (I : instance) (m : nat) (L : list (nat * nat)) : list nat :=
+  map fst (filter (on_machine_k I m) L).
+Record linearises (I : instance) (P : list (list nat)) (L : list (nat * nat)) : Prop := {
+  lin_perm : Permutation L (all_keys I);
+  lin_job : forall L1 k L2 q, L = L1 ++ k :: L2 -> (q < snd k)%nat -> In (fst k, q) L1;
+  lin_rows : P = map (fun m => project I m L) (seq 0 (num_machines I))
+}.
+
+(** [P] is a per-machine permutation: one row per machine, row [m] a
+    rearrangement of the job ids of the operations that run on machine [m]. *)
+Definition true_permutation (I : instance) (P : list (list nat)) : Prop :=
+  length P = num_machines I /\
+  forall m, (m < num_machines I)%nat -> Permutation (nth m P []) (project I m (all_keys I)).
